@@ -8,22 +8,25 @@ def run(tier, replay_path=None):
     wd = workdir(pid); rng = random.Random(seed()); V = Verdict(pid, tier)
     states = gen = 0
     if replay_path:
-        cases = [{"id": i, "calls": r["calls"], "refs": r.get("refs", {})} for i, r in enumerate(json.load(open(replay_path))["records"])]
+        cases = [{"id": i, "kind": r.get("kind", "select"), "calls": r["calls"], "refs": r.get("refs", {})} for i, r in enumerate(json.load(open(replay_path))["records"])]
     else:
-        n = 3
-        cfg = "SPECIFICATION Spec\nCONSTANT MaxCalls = %d\nINVARIANT HistoriesRebuild TakeLeavesNew CloneEqual Emit\nPROPERTY NonInterference\nCHECK_DEADLOCK FALSE\n" % n
-        mc = run_tlc("MCTake", cfg, os.path.join(wd, "mc"), workers=10, heap="8g", young=None, timeout=3400)
-        tlc_must_pass(mc, "MCTake")
-        states, gen = mc.distinct, mc.generated
-        hs = mc.json_payloads("CASE")
-        log("[C15] MC: %d states (all histories of <= %d steps over 50 actions on two registers), %.0fs" % (mc.distinct, n, mc.wall))
-        keep = [h for h in hs if len(h["calls"]) <= 2]
-        long_ = [h for h in hs if len(h["calls"]) > 2]
-        # of the long ones prefer those containing take / clone / clear
-        special = [h for h in long_ if any(c["op"] in ("take", "clone", "clear_selects", "from_clear", "reset_limit", "reset_offset", "clear_order_by") for c in h["calls"])]
-        hs = keep + sample(special, 700 if tier == "quick" else 30000, rng)
+        hs = []
+        for kind, n in (("select", 3), ("update", 3), ("delete", 3), ("window", 4 if tier == "quick" else 5)):
+            cfg = ("SPECIFICATION Spec\nCONSTANT MaxCalls = %d\nCONSTANT Kind = \"%s\"\nINVARIANT HistoriesRebuild TakeLeavesNew CloneEqual Emit\n"
+                   "PROPERTY NonInterference ClearOnlyThatClause\nCHECK_DEADLOCK FALSE\n" % (n, kind))
+            mc = run_tlc("MCTake", cfg, os.path.join(wd, "mc_" + kind), workers=10, heap="8g", young=None, timeout=3400)
+            tlc_must_pass(mc, "MCTake(%s)" % kind)
+            states += mc.distinct; gen += mc.generated
+            got = mc.json_payloads("CASE")
+            log("[C15] MC %s: %d states (all histories of <= %d steps on two registers), %.0fs" % (kind, mc.distinct, n, mc.wall))
+            keep = [h for h in got if len(h["calls"]) <= 2]
+            long_ = [h for h in got if len(h["calls"]) > 2]
+            # of the long ones prefer those containing take / clone / clear
+            special = [h for h in long_ if any(c["op"] in ("take", "clone", "clear_selects", "from_clear", "reset_limit", "reset_offset", "clear_order_by") for c in h["calls"])]
+            quota = {"select": 700, "update": 250, "delete": 200, "window": 300}[kind]
+            hs += keep + sample(special, quota if tier == "quick" else quota * 40, rng)
         # longer histories: every field set, then take / clone / clear at a random position, then more calls
-        menu = json.load(open(os.path.join(SPEC, "take_menu.json")))
+        menu = json.load(open(os.path.join(SPEC, "take_menu.json")))["select"]
         clears = {"clear_selects": ("column", "expr", "expr_as", "expr_window", "expr_window_name"), "from_clear": ("from", "from_as", "from_subquery", "from_values"),
                   "reset_limit": ("limit",), "reset_offset": ("offset",), "clear_order_by": ("order_by",)}
         for _ in range(80 if tier == "quick" else 4000):
@@ -44,8 +47,8 @@ def run(tier, replay_path=None):
                         calls.append(dict(c, reg=2))
                     else:
                         calls.append(c); h1.append(c)
-            hs.append({"calls": calls, "refs": refs})
-        cases = [{"id": i, "calls": h["calls"], "refs": {str(r["step"]): r["calls"] for r in h["refs"]}, "refl": h["refs"]} for i, h in enumerate(hs)]
+            hs.append({"kind": "select", "calls": calls, "refs": refs})
+        cases = [{"id": i, "kind": h["kind"], "calls": h["calls"], "refs": {str(r["step"]): r["calls"] for r in h["refs"]}, "refl": h["refs"]} for i, h in enumerate(hs)]
     recs, dt = replay("hist", cases, wd)
     for r, c in zip(recs, cases):
         r["refs"] = c.get("refl", [])
@@ -56,7 +59,7 @@ def run(tier, replay_path=None):
     for v in verdicts:
         r = byid[v["id"]]
         for k in sorted(set(v["keys"])):
-            V.fail(k, {"calls": r["calls"], "refs": {str(x["step"]): x["calls"] for x in r["refs"]}})
+            V.fail(k, {"kind": r["kind"], "calls": r["calls"], "refs": {str(x["step"]): x["calls"] for x in r["refs"]}})
         if not v["refs_valid"]:
             badrefs += 1
         nontriv += 1 if v["nt"] else 0
@@ -74,7 +77,7 @@ def run(tier, replay_path=None):
         schema_n = sst["evals"]
     cov = {"states": max(states, 1), "transitions": max(gen, 1), "traces_validated_against_impl": len(verdicts),
            "evaluations": sum(len(r["steps"]) for r in recs), "distinct_nontrivial": nontriv,
-           "rule": "histories = TLC state space of the two-register SelectStatement machine (Take.tla): every sequence of <= 3 steps over one representative call per field (19 calls covering all 16 fields incl. index hints), the same calls on the second register, take, clone and the five clear / reset operations; + random histories setting 6..19 fields with take / clone / clear inserted at random positions; per step the real ==, the renderings of both registers on 3 backends, and for clear operations the statement rebuilt without that clause; non-trivial = history contains take, clone or a clear operation",
+           "rule": "histories = TLC state spaces of the two-register machines (Take.tla) for SelectStatement, UpdateStatement, DeleteStatement (clone, clear_order_by) and WindowStatement (take, clone, clear_order_by; <= 4 steps over partitions, orders, two frame forms); for SelectStatement: every sequence of <= 3 steps over one representative call per field (19 calls covering all 16 fields incl. index hints), the same calls on the second register, take, clone and the five clear / reset operations; + random histories setting 6..19 fields with take / clone / clear inserted at random positions; per step the real ==, the renderings of both registers on 3 backends, and for clear operations the statement rebuilt without that clause; non-trivial = history contains take, clone or a clear operation",
            "samples": [{"calls": r["calls"]} for r in recs[:: max(1, len(recs) // 3)][:3]],
            "schema_statements_taken": schema_n, "impl_model_exact": drift == 0, "drift": drift}
     return std_finish(pid, tier, t0, V, cov, ["SelectStatement is replayed call by call; for the schema statement builders take() is checked on every statement of the C13/C14 declaration space (Debug text and renderings of the taken statement equal those before)",
